@@ -36,6 +36,9 @@ def load_lock():
 	return {}
 
 
+ORACLE_ERRORS = []     # crashes of the harness itself (not of a case): never turned into a verdict about the code
+
+
 def run_oracle(prop, repo_root, request, timeout=600):
 	"""Run the executable-spec harness of a property in the repository's interpreter."""
 	env = dict(os.environ)
@@ -44,6 +47,7 @@ def run_oracle(prop, repo_root, request, timeout=600):
 	p = subprocess.run([VENV_PY, str(VERIF / 'specs' / 'run_oracle.py'), prop], input=json.dumps(request),
 	                   capture_output=True, text=True, timeout=timeout, env=env)
 	if p.returncode != 0:
+		ORACLE_ERRORS.append((p.stderr or p.stdout)[-600:])
 		return {'error': (p.stderr or p.stdout)[-2000:]}
 	try:
 		return json.loads(p.stdout.strip().split('\n')[-1])
@@ -252,6 +256,13 @@ def check(run, mod, args):
 		if line not in seen_known:
 			seen_known.add(line)
 			print(line)
+	for e in ORACLE_ERRORS:
+		run.machinery_errors.append('oracle harness crashed: ' + e.strip().splitlines()[-1][:300])
+	if run.machinery_errors and not any(v[2] == '' for v in run.violations):
+		# without a replayed failing input a verdict would rest on broken machinery
+		for m in run.machinery_errors:
+			print(f'MACHINERY-ERROR: {m}')
+		return 3
 	for name, path, suffix in run.violations:
 		print(f'  failed obligation: {name}')
 	if run.violations:
